@@ -30,13 +30,13 @@ import (
 
 // TunnelPlan is what one client does.
 type TunnelPlan struct {
-	Kind     string // ws | legacy
-	ConnID   string
-	User     string
-	IP       string
-	Host     string // backend host:port it asks for
-	StopAt   string // "" = full setup; otherwise stop the setup after: open, hs, tc, ta (then run End)
-	Script   []string
+	Kind   string // ws | legacy
+	ConnID string
+	User   string
+	IP     string
+	Host   string // backend host:port it asks for
+	StopAt string // "" = full setup; otherwise stop the setup after: open, hs, tc, ta (then run End)
+	Script []string
 	// Script ops after the channel is open (or after StopAt):
 	//  data:<tag>  send one DATA packet with payload <tag>
 	//  ka          keep-alive
@@ -72,14 +72,14 @@ type TunnelObs struct {
 
 // ConcScenario is a set of tunnels run concurrently.
 type ConcScenario struct {
-	Name      string
-	Plans     []TunnelPlan
-	Gw        GwCfg
-	NegIdle   bool
-	Segmented bool // client connections deliver one write per read
+	Name       string
+	Plans      []TunnelPlan
+	Gw         GwCfg
+	NegIdle    bool
+	Segmented  bool // client connections deliver one write per read
 	RoundRobin bool // default schedule advances the clients in lockstep (cyclic candidate order)
-	Deviation bool // bound deviations from the default schedule instead of preemptions (multi-tunnel scenarios)
-	MaxSteps  int
+	Deviation  bool // bound deviations from the default schedule instead of preemptions (multi-tunnel scenarios)
+	MaxSteps   int
 	WithEnrich bool
 }
 
